@@ -208,8 +208,8 @@ def c04():
 def c06():
     a = (INV_ASSUME,)
     b = "two archetypes, capacities <= 3 each (incl. empty, full); Break at every global step"
-    def j(h, t, c, w):
-        return J(h, t, c, what=w, bounds=b, assumes=a)
+    def j(h, t, c, w, **kw):
+        return J(h, t, c, what=w, bounds=b, assumes=a, **kw)
     return [
         j("c06_iter_shared_2_2", Q, 150, "ecs_iter! over a component shared by both archetypes, symbolic Break step"),
         j("c06_iter_borrow_shared_2_2", Q, 150, "ecs_iter_borrow! over both archetypes, symbolic Break step"),
